@@ -1,8 +1,8 @@
 CONSTANTS
   Areas <- OnlyV4
   Wide4 <- MCWide4T
-  Sweep4 <- MCSweep4T
-  Base4 <- MCBase4
+  Sweep4 <- MCEmpty
+  Base4 <- MCEmpty
   Net4 <- MCEmpty
   Flip4 <- MCEmpty
   Cidr4B <- MCEmpty
